@@ -25,8 +25,6 @@ def supported(tr):
     """None if the run is inside the world model's scope, else the reason it is not"""
     S, cfgk = tr.S, tr.cfg
     sim = cfgk["sim"]
-    if sim.get("signal"):
-        return "signal_mode"
     minute = cfgk.get("frequency", "1d") == "1m"
     if sim.get("matching_type", "current_bar") not in (("current_bar", "vwap", "next_bar") if minute else ("current_bar", "vwap")):
         return "matching_type"
@@ -183,20 +181,21 @@ def build_request(tr, ix, api_level=False):
     the calls themselves (the model sizes them on its own state); otherwise as the orders they created."""
     cfgk = tr.cfg
     inputs = tr.rec.inputs
-    calls_at = api_calls(tr, ix) if api_level else {}
+    calls_at = api_calls(tr, ix) if (api_level and not cfgk["sim"].get("signal")) else {}
     first = inputs[0]
     accts = first["pf_pre"]["accounts"]
     if any(acct_sync.nan_in(a) for _, a in accts):
         return None, "nan_in_start_state"
     types = [t for t, _ in accts]
-    t = ["WRUN2" if api_level else "WRUN"] + cfg_toks(ix, cfgk) + [str(len(accts))]
+    signal = bool(cfgk["sim"].get("signal"))
+    t = [("WRUNS" if signal else "WRUN2" if api_level else "WRUN")] + cfg_toks(ix, cfgk) + [str(len(accts))]
     for _, a in accts:
         if any(h["id"] not in ix.ids for h in a["holdings"]):
             return None, "unknown_instrument_in_start_state"
         t += acct_sync.ser_acct(ix, a)
     t += [f2b(first["pf_pre"]["units"]), f2b(first["pf_pre"]["static"]),
           str(types.index("STOCK")) if "STOCK" in types else "-", str(types.index("FUTURE")) if "FUTURE" in types else "-"]
-    if api_level:
+    if api_level and not signal:
         ksh = [ix.ids[s["id"]] for s in ix.S["stocks"] if s["board"] == "KSH"]
         t += [str(int(bool(cfgk["accounts_mod"].get("auto_switch_order_value")))), str(len(ksh))] + [str(x) for x in ksh]
     items, body = [], []
@@ -280,11 +279,15 @@ def run_sync(ctx, corrs, tr, ix):
         ctx.stats["world_skipped:run_ended_by_exception"] += 1
         return
     run_level(ctx, corrs, tr, ix, False)
+    if tr.cfg["sim"].get("signal"):
+        ctx.stats["world_runs_signal_mode"] += 1
+        return
     if any("in_range" in c for c in tr.calls):
         run_level(ctx, {k[:-4]: v for k, v in corrs.items() if k.endswith("_api")}, tr, ix, True)
 
 
 DAY_1D = re.compile(r"(PBAc*Rc*TS)+$")
+DAY_SIGNAL = re.compile(r"(PAc*Rc*S)+$")          # signal mode: no simulation broker, hence no broker-side markers
 DAY_1M = re.compile(r"(PBAc*(MRc*)+TS)+$")
 
 
@@ -298,7 +301,7 @@ def run_level(ctx, corrs, tr, ix, api_level):
         # calls fall inside open_auction / handle_bar only
         word = "".join(it["k"] if it["k"] in "PBARTSM" else "c" for it in items)
         minute = tr.cfg.get("frequency", "1d") == "1m"
-        ok = bool((DAY_1M if minute else DAY_1D).match(word))
+        ok = bool((DAY_SIGNAL if tr.cfg["sim"].get("signal") else DAY_1M if minute else DAY_1D).match(word))
         corrs["grammar"].add(ok, {"days": word.count("P"), "calls": word.count("c")} if ok else {"inputs": word[:400], "run_seed": getattr(tr, "run_seed", None)})
     if api_level:
         ctx.stats["world_api_calls_sized_by_the_model"] += len([1 for it in items if it["k"] == "K"])
